@@ -261,9 +261,9 @@ def simple(pid, level, sub, configs_quick, configs_thorough=None):
             try:
                 build(c)
                 if c in NO_INTERNALS and pid in ("C02", "C11"):
-                    raise Machinery("the public state fields of the ChaCha cipher objects are no longer accessible; the explicit-state explorer of %s cannot be built against this tree" % pid)
+                    log("[%s] cipher state fields not accessible in this tree: only the live-object phase runs (stateless, depth-bounded)" % pid)
             except Machinery as e:
-                if c == cfgs[0] or (c in NO_INTERNALS and pid in ("C02", "C11")):
+                if c == cfgs[0]:
                     raise
                 # the main configuration builds, this one does not: the property quantifies over it
                 results.append(dict(config=c, evaluations=0, distinct_nontrivial=0, exhaustive=False, rule="", samples=[],
